@@ -16,11 +16,8 @@ sys.path.insert(0, V)
 import automutate as am
 
 
-def main():
-    n, seed = int(sys.argv[1]), int(sys.argv[2])
-    jobs = int(sys.argv[3]) if len(sys.argv) > 3 else 8
-    cands = am.candidates(seed)[:n]
-    out = []
+def run_suite(cands, jobs):
+    """-> {key: 'passes' | 'kills' | 'stillborn'} for prepared candidates (see automutate.candidates)."""
 
     def work(args):
         slot, c = args
@@ -38,7 +35,32 @@ def main():
             am.sh(f"git -C /repo worktree remove --force {wt}; git -C /repo worktree prune")
 
     with ThreadPoolExecutor(jobs) as ex:
-        res = dict(ex.map(work, [(i, c) for i, c in enumerate(cands)]))
+        return dict(ex.map(work, [(i, c) for i, c in enumerate(cands)]))
+
+
+def main():
+    if sys.argv[1] == "--label":
+        # give every recorded mutant that has no suite verdict yet one (results.jsonl gets an updated record)
+        jobs = int(sys.argv[2]) if len(sys.argv) > 2 else 6
+        logp = os.path.join(V, "automut", "results.jsonl")
+        done = {}
+        for l in open(logp):
+            r = json.loads(l)
+            done[r["key"]] = r
+        need = {k for k, r in done.items() if not r.get("suite") or r.get("suite") == "?"}
+        cands = [c for c in am.candidates(0) if c[8] in need]
+        res = run_suite(cands, jobs)
+        with open(logp, "a") as f:
+            for k, v in res.items():
+                r = dict(done[k])
+                r["suite"] = v if v != "stillborn" else "import fails"
+                f.write(json.dumps(r) + "\n")
+        print({v: list(res.values()).count(v) for v in set(res.values())})
+        return
+    n, seed = int(sys.argv[1]), int(sys.argv[2])
+    jobs = int(sys.argv[3]) if len(sys.argv) > 3 else 8
+    cands = am.candidates(seed)[:n]
+    res = run_suite(cands, jobs)
     surv = []
     for c in cands:
         fn, q, node, kind, pids, text, new_src, orig, key = c
@@ -49,4 +71,5 @@ def main():
     print(counts, len(surv))
 
 
-main()
+if __name__ == "__main__":
+    main()
